@@ -377,6 +377,22 @@ class LaplaceTransformer(UnilateralForwardTransformer):
 
         expr = expr.replace(sym.Heaviside, clip_step)
 
+        def reverse_step(arg, *h0):
+            # Heaviside(a * t + b) with a < 0 is on until t = T = -b / a:
+            # it is zero for all t > 0 if T <= 0, else 1 - Heaviside(t - T).
+            # (SymPy integrates products of forward and reversed steps wrongly.)
+            try:
+                scale, shift = scale_shift(arg, t)
+            except Exception:
+                return sym.Heaviside(arg, *h0)
+            if scale.is_negative and shift.is_nonpositive:
+                return sym.S.Zero
+            if scale.is_negative and shift.is_positive:
+                return 1 - sym.Heaviside(t + shift / scale)
+            return sym.Heaviside(arg, *h0)
+
+        expr = expr.replace(sym.Heaviside, reverse_step)
+
         if expr.has(sym.Heaviside(t)):
             return self.integrate_0(expr.replace(sym.Heaviside(t), 1), t, s) * const
 
